@@ -245,6 +245,8 @@ def judge(rec, e, recipe, buf, fd, cls, exc, result, idx=None):
     if cls is not None:
         if fd[0] == "truncate" and e.prefix:
             rec.count("prefixes_refused")
+        elif fd[0] == "valid":
+            rec.count("valid_units_refused")  # not judged here (C02..C08, C17 own the valid case); shows how much of the corpus decodes
         return cls.__name__
     if fd[0] == "truncate" and e.prefix:
         if accepted(result):
@@ -286,7 +288,7 @@ def run_batch(rec, e, recipe, f, tasks, tally, idx=None):
         with Dog(BATCH_BUDGET_S):
             for buf, fd in tasks:
                 cls, exc, result = attempt(f, buf, doc)
-                if exc is None and cls is not None and not (fd[0] == "truncate" and e.prefix):
+                if exc is None and cls is not None and fd[0] != "valid" and not (fd[0] == "truncate" and e.prefix):
                     local.append(cls.__name__)  # the common case: documented refusal
                 else:
                     local.append((buf, fd, cls, exc, result))
@@ -449,6 +451,7 @@ def finalize(tier, agg):
         "calls_per_fault_family": {k[6:]: v for k, v in sorted(c.items()) if k.startswith("calls_")},
         "corpus_units_faulted": c.get("corpus_units", 0),
         "prefixes_refused": c.get("prefixes_refused", 0),
+        "valid_corpus_units_refused_by_their_decoder": c.get("valid_units_refused", 0),
         "distinct_entry_point_outcome_pairs": len(pairs),
         "entry_point_outcome_pairs": pairs[:400],
         "watchdog_batches_bisected": c.get("batches_bisected", 0),
